@@ -398,6 +398,12 @@ class HistoryExec:
 # ---------------------------------------------------------------------------
 # calibration
 # ---------------------------------------------------------------------------
+class SamplerShape(Exception):
+    """The sampler does not have the shape the scripted calibration relies
+    on (one call of rng.random() per qubit, in qubit order).  Not a verdict:
+    the calibration then falls back to a seeded statistical comparison."""
+
+
 class Scripted:
     """Stands in for numpy's Generator: .random() replays chosen uniforms."""
 
@@ -407,10 +413,13 @@ class Scripted:
 
     def random(self, *a, **kw):
         if a or kw:
-            raise HarnessError('scripted generator: unexpected arguments')
+            raise SamplerShape('rng.random called with arguments')
         v = self.values[self.i % len(self.values)]
         self.i += 1
         return v
+
+    def __getattr__(self, name):
+        raise SamplerShape(f'sampler uses rng.{name}')
 
 
 ONE_MINUS = 1.0 - 2.0 ** -53
@@ -425,7 +434,7 @@ def locate_map(code, noise, p):
         sc = Scripted([u])
         e = noise.generate(code, p, rng=sc)
         if sc.i != n:
-            raise HarnessError(f'sampler drew {sc.i} uniforms for {n} '
+            raise SamplerShape(f'sampler drew {sc.i} uniforms for {n} '
                                'qubits')
         return bsf_to_pauli(e)
 
@@ -474,7 +483,14 @@ def calibration(plan):
         p = plan['rate']
         n = code.n
         rc = refmodel.RefCode(code)
-        pieces, f = locate_map(code, noise, p)
+        try:
+            pieces, f = locate_map(code, noise, p)
+        except SamplerShape as e:
+            sim.probe('scripted_calibration_not_applicable')
+            info['fallback'] = str(e)
+            statistical_calibration(plan, sim, code, noise, dec, rc,
+                                    violate, info)
+            raise _Done()
         # measured per-qubit interval measures
         meas = [{'I': 0.0, 'X': 0.0, 'Y': 0.0, 'Z': 0.0} for _ in range(n)]
         rep = [dict() for _ in range(n)]
@@ -582,8 +598,20 @@ def calibration(plan):
                         violate('monte_carlo_inconsistent_with_exact', {
                             'fails': kf, 'trials': plan['mc_trials'],
                             'exact': exact, 'tail': tail})
+    except _Done:
+        pass
     except HarnessError:
         raise
+    except SamplerShape as e:
+        # shape changed half-way (e.g. inside run_once): fall back as well
+        sim.probe('scripted_calibration_not_applicable')
+        info['fallback'] = str(e)
+        try:
+            statistical_calibration(plan, sim, code, noise, dec, rc,
+                                    violate, info)
+        except Exception as e2:
+            violate('calibration_raised', {'exc': type(e2).__name__,
+                                           'msg': str(e2)[:200]})
     except Exception as e:
         violate('calibration_raised', {'exc': type(e).__name__,
                                        'msg': str(e)[:200]})
@@ -598,8 +626,8 @@ def calibration(plan):
         'states': [digest([plan['code'], plan['noise'], plan['decoder'],
                            plan['rate']])],
         'fault_counts': {},
-        'probes': {'calibration_errors_enumerated': n_eval,
-                   'calibration_config': 1},
+        'probes': dict(sim.probes, calibration_errors_enumerated=n_eval,
+                       calibration_config=1),
         'n_trials': n_eval,
         'info': info,
     }
@@ -672,6 +700,10 @@ def calibration_seq(plan):
                 break
     except HarnessError:
         raise
+    except SamplerShape:
+        # cannot be scripted: this oracle does not apply (the history /
+        # twin oracle and the statistical fallback still do)
+        sim.probe('scripted_calibration_not_applicable')
     except Exception as e:
         violations.append({'class': 'calibration_raised', 'detail': {
             'exc': type(e).__name__, 'msg': str(e)[:200]}})
@@ -684,8 +716,8 @@ def calibration_seq(plan):
         'states': [digest([plan['code'], plan['noises'], plan.get('order'),
                            plan['rate']])],
         'fault_counts': {},
-        'probes': {'calibration_sequence': 1,
-                   'models_calibrated_in_sequence': n_models},
+        'probes': dict(sim.probes, calibration_sequence=1,
+                       models_calibrated_in_sequence=n_models),
         'n_trials': 0, 'info': {'models': n_models},
     }
 
@@ -707,6 +739,57 @@ def gen_calibration_seq(seed):
     return {'property': PROP, 'kind': 'calibration_seq', 'seed': seed,
             'code': code, 'noises': noises, 'order': order,
             'rate': rng.choice(RATES)}
+
+
+class _Done(Exception):
+    pass
+
+
+def statistical_calibration(plan, sim, code, noise, dec, rc, violate, info):
+    """Fallback when the sampler cannot be scripted: exact failure
+    probability from the *stated* channel and the real decoder (enumeration
+    of all 4^n errors, stabilizer-group membership), compared with a seeded
+    Monte-Carlo run of the real DirectSimulation by an exact two-sided
+    binomial test at alpha = 1e-9."""
+    from panqec.bpauli import pauli_to_bsf
+    from panqec.simulation import DirectSimulation
+    p = plan['rate']
+    n = code.n
+    dname = plan['noise'].get('deformation_name')
+    dkw = plan['noise'].get('deformation_kwargs') or {}
+    defs = [code.get_deformation(q, dname, **dkw) if dname else None
+            for q in code.qubit_coordinates]
+    ch = refmodel.channel(p, (plan['noise']['r_x'], plan['noise']['r_y'],
+                              plan['noise']['r_z']), defs)
+    if n > 6:
+        sim.probe('statistical_calibration_skipped_n_gt_6')
+        return
+    exact = 0.0
+    for code_int in range(4 ** n):
+        s_, v, P = '', code_int, 1.0
+        for i in range(n):
+            c = 'IXYZ'[v & 3]
+            v >>= 2
+            s_ += c
+            P *= ch[i]['IXYZ'.index(c)]
+        if P == 0.0:
+            continue
+        e_bsf = pauli_to_bsf(s_)
+        cor = dec.decode(code.measure_syndrome(e_bsf))
+        tot = refmodel.add(refmodel.op_from_string(s_),
+                           refmodel.op_from_bsf(np.asarray(cor).ravel(), n))
+        if not rc.in_stabilizer_group(tot):
+            exact += P
+    trials = 20000
+    s = DirectSimulation(code, noise, dec, p, verbose=False,
+                         rng=np.random.default_rng(plan['seed'] & 0xffffffff))
+    s.run(trials)
+    kf = sum(1 for x in s.results['success'] if not x)
+    tail = binom_two_sided(kf, trials, exact)
+    info['statistical'] = [kf, trials, exact, tail]
+    if tail < 1e-9:
+        violate('monte_carlo_inconsistent_with_exact', {
+            'fails': kf, 'trials': trials, 'exact': exact, 'tail': tail})
 
 
 def binom_two_sided(k, n, p):
